@@ -329,12 +329,13 @@ impl<'tcx> Cx<'tcx> {
             Rvalue::Repeat(op, n) => {
                 let nv = n.try_to_target_usize(tcx);
                 format!(
-                    "{{\"repeat\":{},\"n\":{}}}",
+                    "{{\"repeat\":{},\"n\":{},\"n_expr\":{}}}",
                     self.operand(body_def, body, op),
                     match nv {
                         Some(v) => v.to_string(),
                         None => "null".into(),
-                    }
+                    },
+                    esc(&with_no_trimmed_paths!(n.to_string()))
                 )
             }
             Rvalue::Ref(_, bk, p) => {
@@ -537,7 +538,7 @@ impl<'tcx> Cx<'tcx> {
         }
         let _ = write!(
             o,
-            "{{\"kind\":{},\"parent\":{},\"root\":{},\"is_async\":{},\"vis\":{},\"self_ty\":{},\"trait\":{},\"span\":{},\"arg_count\":{},\"name\":{}",
+            "{{\"kind\":{},\"parent\":{},\"root\":{},\"is_async\":{},\"vis\":{},\"self_ty\":{},\"trait\":{},\"span\":{},\"arg_count\":{},\"name\":{},\"generics\":{}",
             esc(kind_s),
             opt_str(parent),
             esc(&self.path(root)),
@@ -548,6 +549,11 @@ impl<'tcx> Cx<'tcx> {
             esc(&self.span_s(body.span)),
             body.arg_count,
             esc(&tcx.opt_item_name(did).map(|s| s.to_string()).unwrap_or_default()),
+            {
+                let g = tcx.generics_of(root);
+                let v: Vec<String> = (0..g.count()).map(|i| esc(&g.param_at(i, tcx).name.to_string())).collect();
+                format!("[{}]", v.join(","))
+            },
         );
         // locals
         let mut names: BTreeMap<usize, String> = BTreeMap::new();
